@@ -440,6 +440,39 @@ def main20(tag, outdir):
         open(os.path.join(outdir, aid + ".txt"), "w").write(out)
         print(aid, len(out))
 
+# wave 21: the handler layer of the six Pinocchio instructions (validation and plumbing, not the ported math)
+PINO21 = [
+ ("P01", "programs/whirlpool/src/pinocchio/instructions/increase_liquidity.rs"),
+ ("P02", "programs/whirlpool/src/pinocchio/instructions/increase_liquidity_v2.rs"),
+ ("P03", "programs/whirlpool/src/pinocchio/instructions/increase_liquidity_by_token_amounts_v2.rs"),
+ ("P04", "programs/whirlpool/src/pinocchio/instructions/decrease_liquidity.rs"),
+ ("P05", "programs/whirlpool/src/pinocchio/instructions/decrease_liquidity_v2.rs"),
+ ("P06", "programs/whirlpool/src/pinocchio/instructions/reposition_liquidity_v2.rs"),
+]
+
+def main21(tag, outdir):
+    os.makedirs(outdir, exist_ok=True)
+    root = os.path.dirname(os.path.dirname(os.path.abspath(__file__)))
+    brief = open(os.path.join(root, "notes/SEED_BRIEF.md")).read().split("\n---\n", 1)[1]
+    props = [json.loads(l) for l in open(os.path.join(root, "properties.jsonl"))]
+    plist = "\n".join(f"* {p['id']} — {p['title']}. {p['statement']}" for p in props)
+    for aid, path in PINO21:
+        d = f"/tmp/{tag}_{aid}"
+        text = ("This time you are not given one property but ONE HANDLER. The repository is expected to satisfy all of the "
+                "following properties (each must hold for every input, history and configuration):\n\n" + plist +
+                "\n\nYour handler - the change must be made in this file, or in a helper under programs/whirlpool/src/pinocchio/ that it calls for account "
+                "loading, validation, transfers or write-back (NOT in pinocchio/ported/manager_* - the ported arithmetic has been covered):\n  - " + path +
+                "\n\nThese six handlers are the live implementation of the liquidity instructions and have no unit tests of their own. Read the handler from the "
+                "first account it loads to the last byte it writes - which account is checked against which, who must sign, which amount goes into which transfer in "
+                "which direction, what is written back where and in which order, how remaining accounts and token programs are picked - and make a change there that "
+                "breaks one of the properties above. Pick whichever property your change breaks, and say which one in meta.json (\"property\": \"Cxx\").")
+        out = (brief.replace("{dir}", d).replace("{property}", text).replace("{used}", "(about 320 earlier changes exist; few of them touch the handler layer of this file)")
+               .replace("{steer}", "Prefer a change that an ordinary call (the owner adding or removing liquidity on a plain SPL pool, in range) does not notice: it should need a particular account arrangement, token program, position state or argument.")
+               .replace("{id}", "Cxx"))
+        out = out.replace("Earlier changes written against this property are listed here", "Earlier changes")
+        open(os.path.join(outdir, aid + ".txt"), "w").write(out)
+        print(aid, len(out))
+
 def main():
     tag, outdir = sys.argv[1], sys.argv[2]
     if tag.startswith("seed17"):
@@ -450,6 +483,8 @@ def main():
         return main19(tag, outdir)
     if tag.startswith("seed20"):
         return main20(tag, outdir)
+    if tag.startswith("seed21"):
+        return main21(tag, outdir)
     if tag.startswith("seed14") or tag.startswith("seed15") or tag.startswith("seed16"):
         return main14(tag, outdir)
     if tag.startswith("seed13"):
